@@ -1,10 +1,209 @@
-/- Driver for `kind = "c11"` (and `"c11:…"`) cases. -/
+/- Driver for `kind = "c11"` (and `"c11:raw"`) cases: the key-management layer over the logical store model.
+   Executable instances of the two abstract parameters of `Model/KeyStore.lean`:
+   * `cbor`   — the RFC 8949 encoding serde_cbor produces for `KeyParams` (and a strict decoder of that form);
+   * `keyOps` — a table of the case's keys (algorithm, thumbprints, secret JWK, raw bytes), as computed by the
+                generator with the library itself; import follows `from_jwk_any` (no `oct` branch). -/
 import Driver.Common
+import Driver.Store
+import AskarModel.Model.KeyStore
+import AskarModel.Model.Like
 
-open Lean
+open Lean Askar Askar.Wql Askar.Store Askar.KeyStore
 
 namespace Driver.C11
 
-def runCase (_j : Json) : Json := jerr "not implemented"
+/-! ### concrete CBOR -/
+
+def beBytes (k : Nat) (n : Nat) : Bytes := (List.range k).reverse.map fun i => UInt8.ofNat (n / 256 ^ i % 256)
+
+def cborHead (major n : Nat) : Bytes :=
+  let m := major * 32
+  if n < 24 then [UInt8.ofNat (m + n)]
+  else if n < 256 then UInt8.ofNat (m + 24) :: beBytes 1 n
+  else if n < 65536 then UInt8.ofNat (m + 25) :: beBytes 2 n
+  else if n < 4294967296 then UInt8.ofNat (m + 26) :: beBytes 4 n
+  else UInt8.ofNat (m + 27) :: beBytes 8 n
+
+def cborText (s : String) : Bytes := cborHead 3 (utf8 s).length ++ utf8 s
+def cborBytes (b : Bytes) : Bytes := cborHead 2 b.length ++ b
+
+def encRef : KeyRef → Bytes
+  | .mobileSecureElement => cborText "MobileSecureElement"
+  | .any s => cborHead 5 1 ++ cborText "Any" ++ cborText s
+
+def cborEnc (p : KeyParams) : Bytes :=
+  cborHead 5 ((if p.meta.isSome then 1 else 0) + (if p.ref.isSome then 1 else 0) + (if p.data.isSome then 1 else 0)) ++
+  (match p.meta with | some m => cborText "meta" ++ cborText m | none => []) ++
+  (match p.ref with | some r => cborText "ref" ++ encRef r | none => []) ++
+  (match p.data with | some d => cborText "data" ++ cborBytes d | none => [])
+
+def beNat (b : Bytes) : Nat := b.foldl (fun a x => a * 256 + x.toNat) 0
+
+/-- major type, argument, rest (definite lengths only) -/
+def parseHead : Bytes → Option (Nat × Nat × Bytes)
+  | [] => none
+  | b :: rest =>
+    let major := b.toNat / 32
+    let ai := b.toNat % 32
+    if ai < 24 then some (major, ai, rest)
+    else
+      let k := if ai == 24 then 1 else if ai == 25 then 2 else if ai == 26 then 4 else if ai == 27 then 8 else 0
+      if k == 0 || rest.length < k then none else some (major, beNat (rest.take k), rest.drop k)
+
+def parseBlob (major : Nat) (b : Bytes) : Option (Bytes × Bytes) :=
+  match parseHead b with
+  | some (m, n, rest) => if m == major && n ≤ rest.length then some (rest.take n, rest.drop n) else none
+  | none => none
+
+def parseText (b : Bytes) : Option (String × Bytes) :=
+  match parseBlob 3 b with
+  | some (t, rest) => (String.fromUTF8? (ByteArray.mk t.toArray)).map fun s => (s, rest)
+  | none => none
+
+def parseRef (b : Bytes) : Option (KeyRef × Bytes) :=
+  match parseHead b with
+  | some (3, _, _) =>
+    match parseText b with
+    | some ("MobileSecureElement", rest) => some (.mobileSecureElement, rest)
+    | _ => none
+  | some (5, 1, rest) =>
+    match parseText rest with
+    | some ("Any", rest) => (parseText rest).map fun (s, r) => (.any s, r)
+    | _ => none
+  | _ => none
+
+def parseFields : Nat → KeyParams → Bytes → Option KeyParams
+  | 0, p, [] => some p
+  | 0, _, _ => none
+  | n + 1, p, b =>
+    match parseText b with
+    | some ("meta", rest) =>
+      if p.meta.isSome then none else
+      match parseText rest with
+      | some (m, rest) => parseFields n { p with «meta» := some m } rest
+      | none => none
+    | some ("ref", rest) =>
+      if p.ref.isSome then none else
+      match parseRef rest with
+      | some (r, rest) => parseFields n { p with ref := some r } rest
+      | none => none
+    | some ("data", rest) =>
+      if p.data.isSome then none else
+      match parseBlob 2 rest with
+      | some (d, rest) => parseFields n { p with data := some d } rest
+      | none => none
+    | _ => none
+
+def cborDec (b : Bytes) : Option KeyParams :=
+  match parseHead b with
+  | some (5, n, rest) => parseFields n ⟨none, none, none⟩ rest
+  | _ => none
+
+def cbor : Cbor := ⟨cborEnc, cborDec⟩
+
+/-! ### key table -/
+
+structure DKey where
+  alg : String
+  thumbs : List String
+  jwk : Except Err Bytes
+  sec : Json
+  pub : Json
+  deriving Inhabited
+
+def errOfName : String → Err
+  | "Backend" => .backend | "Busy" => .busy | "Custom" => .custom | "Duplicate" => .duplicate
+  | "Encryption" => .encryption | "Input" => .input | "NotFound" => .notFound
+  | "Unsupported" => .unsupported | _ => .unexpected
+
+def parseKey (j : Json) : DKey :=
+  { alg := str! j "alg", thumbs := (arr! j "thumbs").map asStr,
+    jwk := match j.getObjVal? "jwk" with
+      | .ok (.str s) => .ok ((Bytes.ofHex s).getD [])
+      | .ok v => .error (errOfName (str! v "err"))
+      | _ => .error .unexpected,
+    sec := (j.getObjVal? "sec").toOption.getD .null, pub := (j.getObjVal? "pub").toOption.getD .null }
+
+/-- `Box::<AnyKey>::from_jwk_slice` on the table: a JWK that some key of the case exports imports back to that key
+    when `from_jwk_any` has a branch for its algorithm; anything else is not a JWK the generator produces
+    (the raw stream uses the bytes `junk`: a parse error, `Input`). -/
+def keyOps (table : List DKey) : KeyOps DKey where
+  alg k := k.alg
+  thumbs k := .ok k.thumbs
+  encode k := k.jwk
+  decode b :=
+    match table.find? fun k => match k.jwk with | .ok x => x == b | .error _ => false with
+    | some k => if jwkImportable symmetricJwkImport k.alg then .ok k else .error .unsupported
+    | none => .error .input
+  fromId _ _ := .error .unsupported
+  asStr b := String.fromUTF8? (ByteArray.mk b.toArray)
+
+/-! ### JSON forms -/
+
+def jopt (s : Option String) : Json := match s with | some x => .str x | none => .null
+
+def jkeyEntry (O : KeyOps DKey) (e : KeyEntry) : Json :=
+  let load := match loadLocalKey O e with
+    | .error x => jerr x.name
+    | .ok k => Json.mkObj [("alg", .str k.alg), ("sec", k.sec), ("pub", k.pub), ("thumbs", .arr (k.thumbs.map Json.str).toArray)]
+  Json.mkObj [("n", .str e.name), ("alg", jopt e.alg), ("meta", jopt e.metadata), ("local", .bool e.isLocal),
+    ("t", .arr (e.tags.map Driver.Store.jtag).toArray), ("load", load)]
+
+def parseRefJ (j : Json) : Option KeyRef :=
+  match getD? j "ref" with
+  | none => none
+  | some (.str _) => some .mobileSecureElement
+  | some v => some (.any (str! v "any"))
+
+structure St where
+  db : Db
+  now : Int
+
+def sess : Sess := ⟨1, 0⟩
+
+def stepOp (table : List DKey) (st : St) (j : Json) : St × Json :=
+  let O := keyOps table
+  let n := str! j "n"
+  let tags := Driver.Store.parseTags j "t"
+  let unit (r : Except Err Db) : St × Json :=
+    match r with
+    | .ok db => ({ st with db := db }, "ok")
+    | .error e => (st, jerr e.name)
+  match str! j "op" with
+  | "insert_key" =>
+    unit (insertKey cbor O st.db st.now sess n (table.getD (nat! j "key") default) (strOpt j "meta") (parseRefJ j) tags (intOpt j "e"))
+  | "update_key" => unit (updateKey cbor st.db st.now sess n (strOpt j "meta") tags (intOpt j "e"))
+  | "remove_key" => unit (removeKey st.db sess n)
+  | "fetch_key" =>
+    match fetchKey cbor st.db st.now sess n with
+    | .ok none => (st, .null)
+    | .ok (some e) => (st, jkeyEntry O e)
+    | .error x => (st, jerr x.name)
+  | "fetch_all_keys" =>
+    match fetchAllKeys cbor sqliteLike prefixAfterTilde st.db st.now sess (strOpt j "alg") (strOpt j "thumb")
+        (Driver.Store.filterOpt j "f") (intOpt j "lim") with
+    | .error x => (st, jerr x.name)
+    | .ok es =>
+      match intOpt j "lim" with
+      | some l => if l ≥ 0 then (st, Json.mkObj [("count", jnat es.length)]) else (st, rows es O)
+      | none => (st, rows es O)
+  | "item_fetch" =>
+    match doFetch st.db st.now sess 2 cryptoKey n with
+    | none => (st, .null)
+    | some e => (st, Driver.Store.jentry e)
+  | "raw_insert" => unit (doInsert st.db st.now sess (nat! j "k") cryptoKey n (hex! j "v") tags none)
+  -- the dump is a scan: expired rows are not shown
+  | "dump" => (st, Driver.Store.jentries true ((sortById (st.db.items.filter (live st.now))).map toEntry))
+  | _ => (st, jerr "BadOp")
+where
+  rows (es : List KeyEntry) (O : KeyOps DKey) : Json :=
+    Json.mkObj [("rows", .arr ((Driver.Store.sortBy (fun a b => Bytes.lt (utf8 a.name) (utf8 b.name)) es).map (jkeyEntry O)).toArray)]
+
+def runCase (j : Json) : Json :=
+  let table := (arr! j "keys").map parseKey
+  let st0 : St := { db := { profiles := [⟨1, "default", 0⟩] }, now := int! j "now" }
+  .arr ((arr! j "ops").foldl (fun (acc : St × Array Json) op =>
+    let (st', o) := stepOp table acc.1 op
+    (st', acc.2.push o)) (st0, #[])).2
 
 end Driver.C11
